@@ -326,6 +326,25 @@ def clearTok (st : St) : RState → St
   | .hooked _ t => clearTok st t
   | _ => st
 
+/-- the component body of `<ErrorBoundary>`: `errors` (a signal), `errors_empty` (a memo over it); the hook is
+installed while the children are built -/
+def ebOpen (st : St) : St :=
+  let st1 := (st.addDef (.sig 0)).2
+  let st2 := (st1.addDef (.memo (.ite (.rd true st.prog.length) (.lit 0) (.lit 1)))).2
+  { st2 with hook := some st.prog.length }
+
+/-- … then the boundary's own render effect over the built children `k`; the previous hook comes back -/
+def ebClose (saved : Option Nat) (s : Nat) (k : RState) (st : St) : RState × St :=
+  let r := newEff st (.rd true (s + 1))
+  let fb : Option N := if r.2.1 != 0 then none else some r.2.2.alloc.1
+  let st' := if r.2.1 != 0 then r.2.2 else r.2.2.alloc.2
+  (.errb r.1 (s + 1) s fb k, { st'.spawn r.1 with hook := saved })
+
+/-- the effects of a region run under the hook `h`; what they drop goes to tasks with that hook -/
+def underHook (h : Option Nat) (f : St → RState × St × Nat) (st : St) : RState × St × Nat :=
+  let r := f { st with hook := h }
+  (r.1, { r.2.1 with hook := st.hook, zombies := wrapFrom st.zombies.length h r.2.1.zombies }, r.2.2)
+
 /-! ## build -/
 
 def forIndex (v : Int) (n : Nat) : Nat := (v % (n : Int)).toNat
@@ -455,16 +474,8 @@ def build : View → St → RState × St
     let (rs, st) := (keys.zip (List.range keys.length)).foldl (rowStep en ks (build row)) ([], st)
     (.rows e en sel lists row ks (mkChain rs), st.spawn e)
   | .eb kid, st =>
-    -- the component body: `errors`, `errors_empty`; the children are built under the new hook, then the
-    -- boundary's own render effect
-    let (s, st) := st.addDef (.sig 0)
-    let (m, st) := st.addDef (.memo (.ite (.rd true s) (.lit 0) (.lit 1)))
-    let saved := st.hook
-    let (k, st) := build kid { st with hook := some s }
-    let (e, v, st) := newEff st (.rd true m)
-    let fb : Option N := if v != 0 then none else some st.alloc.1
-    let st := if v != 0 then st else st.alloc.2
-    (.errb e m s fb k, { st.spawn e with hook := saved })
+    let r := build kid (ebOpen st)
+    ebClose st.hook st.prog.length r.1 r.2
   | .res c x, st =>
     let (e, v, st) := newEff st (st.res (resBody c x))
     let (n, st) := st.alloc
@@ -659,11 +670,8 @@ def rerunIn (e : Nat) (v : Int) : RState → St → RState × St × Nat
     else
       -- the effects of the children run under the boundary's hook; while the fallback is shown the
       -- children are not in the document: what they do to their top-level nodes reaches no parent
-      let saved := st.hook
-      let z0 := st.zombies.length
-      let (kid, st, d) := rerunIn e v kid { st with hook := some s }
-      (.errb e' m s fb kid, { st with hook := saved, zombies := wrapFrom z0 (some s) st.zombies },
-        if fb.isSome then 0 else d)
+      let r := underHook (some s) (rerunIn e v kid) st
+      (.errb e' m s fb r.1, r.2.1, if fb.isSome then 0 else r.2.2)
   | .res e' c x n last hook, st =>
     if e' = e then
       match last, decodeRes v with
@@ -673,10 +681,8 @@ def rerunIn (e : Nat) (v : Int) : RState → St → RState × St × Nat
       | some l, some w => (.res e' c x (if w = l then n else ⟨n.id, n.muts + 1⟩) (some w) hook, st, 0)
     else (.res e' c x n last hook, st, 0)
   | .hooked h inner, st =>
-    let saved := st.hook
-    let z0 := st.zombies.length
-    let (inner, st, d) := rerunIn e v inner { st with hook := h }
-    (.hooked h inner, { st with hook := saved, zombies := wrapFrom z0 h st.zombies }, d)
+    let r := underHook h (rerunIn e v inner) st
+    (.hooked h r.1, r.2.1, r.2.2)
   | .errTok s, st => (.errTok s, st, 0)
 
 /-- the same for the values held by zombies (their DOM is detached: the counts are dropped) -/
